@@ -73,8 +73,20 @@ def write_and_check(fills, version, code, dest, res, tag, code_fits=True):
             label = label_rows(dest)
             before = rc.png_encode_rgba(160, 205, label)
             open(path, 'wb').write(before)
+        # how the caller names the label source: not at all, label_fname=None (a wrapper forwarding its own optional
+        # argument) - both mean "the existing destination, else the bundled label" -, or an explicit other image
+        how = ('absent', 'none', 'explicit')[(len(src) + (dest or 0) + version) % 3]
+        kw = {}
+        if how == 'none':
+            kw = {'label_fname': None}
+        elif how == 'explicit':
+            other = os.path.join(d, 'label_src.png')
+            label = label_rows((dest or 0) + 1)
+            open(other, 'wb').write(rc.png_encode_rgba(160, 205, label))
+            kw = {'label_fname': other}
+        case['label_arg'] = how
         try:
-            p8file.to_file(g, path)
+            p8file.to_file(g, path, **kw)
             raised = None
         except Exception as e:
             raised = e
@@ -119,7 +131,7 @@ def write_and_check(fills, version, code, dest, res, tag, code_fits=True):
             b = bytes(b & 0xfc for b in label[y])
             if a != b:
                 x = next(i for i in range(len(a)) if a[i] != b[i])
-                res.violation('C04|label-pixels|%s' % ('existing' if dest is not None else 'bundled'),
+                res.violation('C04|label-pixels|%s%s' % ('existing' if dest is not None else 'bundled', '' if how == 'absent' else '|label_fname=' + how),
                               'pixel (%d,%d) channel %s: upper bits %#x, label source %#x' % (
                                   x // 4, y, 'RGBA'[x % 4], a[x], b[x]), case)
                 break
